@@ -8,7 +8,9 @@ TEXTS = ['abc', 'a b', 'two  spaces', 'semi;colon', 'hash # tag', 'k=v',
          'UPPER lower', "it's", 'say "hi"', '-5 deg', 'global color=red',
          # delimiter characters inside the string (DS9 offers {} "" '')
          'a}', '{x}', 'a{b}c', '}', '"quoted"', "'q'", ' lead', 'trail ',
-         '30"', 'x # y {z}', 'a}"']
+         '30"', 'x # y {z}', 'a}"',
+         # characters outside ASCII
+         'Sgr A\u2605', 'caf\u00e9 au lait', '\u03b1 Cen', '5\u2033 N']
 NUMERIC_TEXTS = ['007', '42', '1e3', '3.50', '-0', 'nan', 'inf', '0x10', '1_000']
 COLORS = ['red', 'green', 'blue', 'cyan', 'magenta', 'yellow', 'black',
           'white', '#ff00aa', '#0F0', '#123456']
